@@ -257,6 +257,30 @@ class Gen:
                 op = r.choice(["LT", "LE", "NE", "GT", "GE", "EQ"] if ty == "i" else ["NE", "EQ", "SLT", "SGE", "SLE", "SGT"])
                 if not (a == b and op in ("LT", "GT", "NE", "SLT", "SGT")):
                     body.append({"k": "cmp", "op": op, "l": a, "r": b}); feats.add("cmp-" + ty)
+        if self.has("cmp") and lower and r.random() < 0.3:
+            # an EXISTENTIAL variable: bound by one atom, used only in one one-sided comparison (index range patterns with a
+            # single bound; if-conversion / if-exists conversion of scans whose tuple is not otherwise used)
+            cands = [x for x in lower if "i" in x["types"]]
+            if cands:
+                rel = r.choice(cands)
+                ev = self.fresh("i")
+                pos_i = r.choice([i for i, t in enumerate(rel["types"]) if t == "i"])
+                args = []
+                for i, ty in enumerate(rel["types"]):
+                    if i == pos_i:
+                        args.append(V(ev))
+                    elif bound.get(ty) and r.random() < 0.5:
+                        args.append(V(r.choice(bound[ty])))
+                    else:
+                        args.append(ANY)
+                body.append({"k": "atom", "rel": rel["name"], "args": args})
+                other = V(r.choice(bound["i"])) if bound.get("i") and r.random() < 0.6 else N(r.choice([0, 1, 2]))
+                op = r.choice(["LE", "GE", "LT", "GT"])
+                if r.random() < 0.5:
+                    body.append({"k": "cmp", "op": op, "l": V(ev), "r": other})
+                else:
+                    body.append({"k": "cmp", "op": op, "l": other, "r": V(ev)})
+                feats.add("existential-bound")
         if self.has("neg") and lower and r.random() < 0.3:
             rel = r.choice(lower)
             body.append({"k": "neg", "rel": rel["name"], "args": self.atom_args(rel, bound, feats, need_bound=True)})
